@@ -1002,7 +1002,24 @@ func (x *Exec) appendBuiltin(st *State, cc *ssa.CallCommon, args []Val) Val {
 	if c, ok := cc.Args[0].(*ssa.Const); ok && c.IsNil() {
 		fresh = true
 	}
-	return Val{T: x.nameTerm(st, "appended", r), Typ: T, Fresh: fresh}
+	rv := Val{T: x.nameTerm(st, "appended", r), Typ: T, Fresh: fresh}
+	if strings.HasPrefix(s.Org, "param:") && !fresh {
+		// appending onto a view of a caller's buffer: when the view is shorter than the caller's
+		// own and capacity allows, the appended elements overwrite bytes the caller still sees.
+		// Slices are values in this model, so the write itself is not represented; the ghost
+		// flag behind untouched(p) records that it may happen.
+		name := strings.TrimPrefix(s.Org, "param:")
+		if !s.ShrLen.IsZero() {
+			prev, ok := st.ghost["clobber:"+name]
+			if !ok {
+				prev = False
+			}
+			st.ghost["clobber:"+name] = Or(prev, And(Gt(n, IntLit(0)), Lt(oldLen, s.ShrLen)))
+		}
+		rv.Org = s.Org
+		rv.ShrLen = s.ShrLen
+	}
+	return rv
 }
 
 // constLen recognises a literal length term such as "(len_Sl (mk_Sl arr 2 2 false))".
